@@ -727,16 +727,39 @@ def kernel_sig(repo, res):
     # generators instantiate scalar_type / geom_type from the option through the two utils functions
     for kind in ("integral", "expression"):
         g = repo.mod(f"ffcx.codegeneration.C.{kind}").func("generator")
-        src = ast.unparse(g.node)
-        key = f"C.{kind}:scalar_type-slot"
-        res.ob(key)
-        if not re.search(r"scalar_type'?\]?\s*=\s*dtype_to_c_type\(options\['scalar_type'\]\)|scalar_type=dtype_to_c_type\(options\['scalar_type'\]\)", src):
-            res.fail(key, "scalar_type slot is not dtype_to_c_type(options['scalar_type'])", g.module.line(g.node))
-        key = f"C.{kind}:geom_type-slot"
-        res.ob(key)
-        if not re.search(r"geom_type'?\]?\s*=\s*dtype_to_c_type\(dtype_to_scalar_dtype\(options\['scalar_type'\]\)\)|geom_type=dtype_to_c_type\(dtype_to_scalar_dtype\(options\['scalar_type'\]\)\)", src):
-            res.fail(key, "geom_type slot is not the real type of the scalar type: geometry would be passed in the wrong precision / as complex",
-                     g.module.line(g.node))
+        sl = Slicer(g.node)
+
+        def slot_value(name):
+            """The expression stored into the template slot `name` (dict store or keyword of format())."""
+            for n in ast.walk(g.node):
+                if isinstance(n, ast.Assign) and isinstance(n.targets[0], ast.Subscript) and isinstance(n.targets[0].slice, ast.Constant) \
+                        and n.targets[0].slice.value == name:
+                    return n.value
+                if isinstance(n, ast.keyword) and n.arg == name:
+                    return n.value
+            return None
+
+        def through(text):
+            """Is options['scalar_type'] converted only by representation-preserving wrappers (np.dtype)?"""
+            t = text.replace(" ", "")
+            return "options['scalar_type']" in t
+
+        for slot, need_real in (("scalar_type", False), ("geom_type", True)):
+            key = f"C.{kind}:{slot}-slot"
+            res.ob(key)
+            v = slot_value(slot)
+            if v is None:
+                raise AnalysisError(f"C {kind} generator: slot {slot} not found")
+            full = sl.text(v)
+            outer_ok = isinstance(v, ast.Call) and (call_name(v) or "").endswith("dtype_to_c_type")
+            real = "dtype_to_scalar_dtype(" in full.replace(" ", "")
+            if not outer_ok or not through(full):
+                res.fail(key, f"{slot} slot is `{ast.unparse(v)}` (= {full[:80]}), not dtype_to_c_type of the scalar type option", g.module.line(v))
+            elif need_real and not real:
+                res.fail(key, f"geom_type slot is `{full[:90]}`: not the real type of the scalar type - geometry would be declared complex / read as (re, im) pairs "
+                         "for complex scalar types", g.module.line(v))
+            elif not need_real and real:
+                res.fail(key, f"scalar_type slot is `{full[:90]}`: the real part type, complex kernels would be declared real", g.module.line(v))
     # dtype_to_c_type table
     u = repo.mod("ffcx.codegeneration.utils")
     f = u.func("dtype_to_c_type")
@@ -794,8 +817,9 @@ def kernel_sig(repo, res):
     "_compute_expression_ir receives (processed expression, points, original expression), built in that order by "
     "analyze_ufl_objects. original_coefficient_positions must hold, for every coefficient of the *processed* "
     "expression in its numbering order, its index among the coefficients of the *original* expression "
-    "(reaching definitions decide which tuple component each name holds where it is used)",
-    min_instances=4,
+    "(reaching definitions decide which tuple component each name holds where it is used); constant names / count and "
+    "constant offsets are taken from the same (original) expression",
+    min_instances=5,
 )
 def expr_coef_pos(repo, res):
     from ..cfg import CFG, reaching_definitions
@@ -841,9 +865,32 @@ def expr_coef_pos(repo, res):
             return {"?"}
         return component(call.args[0].id, nid[0])
 
-    # the append site
+    # (1) semantic: interpret the backward slice of `original_coefficient_positions` on sample coefficient lists
     key = f"{g.key}:original_coefficient_positions"
     res.ob(key)
+    sem = _positions_by_slice(repo, g)
+    if sem is not None:
+        got, want, why = sem
+        if got != want:
+            res.fail(key, f"for an original expression with coefficients [A, B, C] whose preprocessing keeps [B, C], the computed "
+                     f"original_coefficient_positions are {got}, expected {want}{why}: a caller packing w by these positions hands the kernel the wrong functions",
+                     rep.line(g.node))
+        res.notes.append("original_coefficient_positions decided by interpreting its backward slice on sample coefficient lists")
+        _constant_names_vs_offsets(res, rep, g, cfg, component)
+        key = f"{g.key}:numbering-same-list"
+        res.ob(key)
+        num = _positions_by_slice(repo, g, "coefficient_numbering")
+        if num is None:
+            raise AnalysisError("_compute_expression_ir: coefficient_numbering slice not interpretable")
+        gotn = num[0]
+        if not isinstance(gotn, dict) or sorted((k.f.get("name"), v) for k, v in gotn.items()) != [("B", 0), ("C", 1)]:
+            res.fail(key, f"coefficient_numbering of the processed coefficients [B, C] is {gotn}, expected B->0, C->1 (the order positions are listed in)", rep.line(g.node))
+        key = f"{g.key}:stored"
+        res.ob(key)
+        if not re.search(r"\['original_coefficient_positions'\] = original_coefficient_positions\b", ast.unparse(g.node)):
+            res.fail(key, "the computed positions are not what is stored in the IR", rep.line(g.node))
+        return
+    # (2) structural fallback: the append site
     app = [c for c in calls_in(g.node) if (call_name(c) or "") == "original_coefficient_positions.append"]
     if len(app) != 1:
         raise AnalysisError("_compute_expression_ir: original_coefficient_positions.append not found exactly once")
@@ -888,6 +935,7 @@ def expr_coef_pos(repo, res):
     num = re.search(r"for (\w+), (\w+) in enumerate\((\w+)\):\n\s+coefficient_numbering\[\2\] = \1", ast.unparse(g.node))
     if not num or num.group(3) != iter_name:
         res.fail(key, "coefficient_numbering does not enumerate the list original_coefficient_positions is built for", rep.line(g.node))
+    _constant_names_vs_offsets(res, rep, g, cfg, component)
     key = f"{g.key}:stored"
     res.ob(key)
     if not re.search(r"\['original_coefficient_positions'\] = original_coefficient_positions\b", ast.unparse(g.node)):
@@ -946,3 +994,104 @@ def form_kernel_align(repo, res):
                 continue
             if val_var not in {n.id for n in ast.walk(comp.elt) if isinstance(n, ast.Name)}:
                 res.fail(key, f"{be}: entries of {slot} do not use `{val_var}`", m.line(prev), props=("C06", "C18") if be == "C" else ("C18",))
+
+
+def _constant_names_vs_offsets(res, rep, g, cfg, component):
+    # constants: names / count are listed for the same expression the kernel's constant offsets are computed from
+    key = f"{g.key}:constant-names-vs-offsets"
+    res.ob(key)
+    comps = {}
+    for n_ in ast.walk(g.node):
+        if isinstance(n_, ast.Call) and (call_name(n_) or "").endswith("extract_constants") and n_.args and isinstance(n_.args[0], ast.Name):
+            holder = None
+            for st in ast.walk(g.node):
+                if isinstance(st, (ast.Assign, ast.For)) and any(x is n_ for x in ast.walk(st)):
+                    if isinstance(st, ast.Assign) and isinstance(st.targets[0], ast.Subscript) and isinstance(st.targets[0].slice, ast.Constant):
+                        holder = ("names", st) if "constant_names" in str(st.targets[0].slice.value) else holder
+                    elif isinstance(st, ast.For) and any(isinstance(x, ast.Subscript) and "original_constant_offsets" in ast.unparse(x) for b in st.body for x in ast.walk(b)):
+                        holder = ("offsets", st)
+            if holder is None:
+                continue
+            nid = [nn.id for nn in cfg.stmt_nodes_containing(n_)]
+            if not nid:
+                continue
+            comps.setdefault(holder[0], set()).update(component(n_.args[0].id, nid[0]))
+    if "names" not in comps or "offsets" not in comps:
+        raise AnalysisError("_compute_expression_ir: constant names / constant offsets are not both built from extract_constants(<expression>)")
+    if comps["offsets"] != {2}:
+        res.fail(key, f"constant offsets are computed over tuple component {sorted(map(str, comps['offsets']))}, not the original expression", rep.line(g.node))
+    if comps["names"] != comps["offsets"]:
+        res.fail(key, f"constant names (and num_constants = their number) are listed for tuple component {sorted(map(str, comps['names']))} while the kernel's "
+                 f"offsets into c follow component {sorted(map(str, comps['offsets']))}: when preprocessing eliminates a constant (c2 * Dx(x[0]**2 + c1, 0)) the "
+                 "descriptor announces one constant and the kernel reads c[1]", rep.line(g.node))
+
+
+def _positions_by_slice(repo, g, target="original_coefficient_positions"):
+    """Interpret the statements of _compute_expression_ir that define original_coefficient_positions.
+
+    Returns (got, want, explanation) or None when the slice cannot be interpreted."""
+    from ..absint import Interp, Node, Raised, _PyCall
+    from ..lnodes_model import load_classes
+
+    body = g.node.body
+
+    def mutated(st):
+        out = set()
+        for n in ast.walk(st):
+            if isinstance(n, (ast.Assign, ast.AnnAssign, ast.AugAssign)):
+                for t in ([n.target] if not isinstance(n, ast.Assign) else n.targets):
+                    for x in ast.walk(t):
+                        if isinstance(x, ast.Name) and isinstance(x.ctx, ast.Store):
+                            out.add(x.id)
+                        if isinstance(x, ast.Subscript) and isinstance(x.value, ast.Name):
+                            out.add(x.value.id)
+            if isinstance(n, ast.Call) and isinstance(n.func, ast.Attribute) and n.func.attr in ("append", "extend", "insert") and isinstance(n.func.value, ast.Name):
+                out.add(n.func.value.id)
+            if isinstance(n, ast.For):
+                for x in ast.walk(n.target):
+                    if isinstance(x, ast.Name):
+                        out.add(x.id)
+        return out
+
+    needed = {target}
+    chosen = []
+    for st in reversed(body):
+        m_ = mutated(st)
+        if m_ & needed and not (isinstance(st, ast.Assign) and isinstance(st.targets[0], ast.Subscript) and not isinstance(st.targets[0].value, ast.Name)):
+            chosen.append(st)
+            needed |= {x.id for x in ast.walk(st) if isinstance(x, ast.Name) and isinstance(x.ctx, ast.Load)}
+    chosen.reverse()
+    # statements that only store into ir dicts are not part of the slice
+    chosen = [st for st in chosen if not (isinstance(st, ast.Assign) and isinstance(st.targets[0], ast.Subscript)
+                                          and isinstance(st.targets[0].value, ast.Name) and st.targets[0].value.id in ("ir", "base_ir"))]
+    if not chosen:
+        return None
+    A, B, C = Node("Coefficient", name="A"), Node("Coefficient", name="B"), Node("Coefficient", name="C")
+    processed, original = Node("UflExpr", name="processed"), Node("UflExpr", name="original")
+    it = Interp(repo, load_classes(repo), primary="ffcx.ir.representation")
+
+    def extract(x):
+        if x is processed or (isinstance(x, Node) and x.f.get("name") == "processed"):
+            return [B, C]
+        if isinstance(x, Node) and x.f.get("name") == "original":
+            return [A, B, C]
+        raise AnalysisError("extract_coefficients applied to something else than the processed / original expression")
+
+    it.overrides["ufl.algorithms.extract_coefficients"] = _PyCall(extract)
+    it.overrides["ufl.algorithms.analysis.extract_coefficients"] = _PyCall(extract)
+    it.overrides["extract_coefficients"] = _PyCall(extract)
+    env = {g.params[0]: (processed, Node("ndarray", shape=(1, 2), size=2), original), "ir": {}, "base_ir": {}}
+    it.ctx.append(g.module)
+    try:
+        try:
+            r = it.block(chosen, env)
+        except Raised as e:
+            return ([f"raises {e.what}"], [1, 2], "")
+        except AnalysisError:
+            return None
+    finally:
+        it.ctx.pop()
+    got = env.get(target)
+    if not isinstance(got, (list, dict)):
+        return None
+    return (got, [1, 2], "")
